@@ -28,7 +28,13 @@ def scenarios(tier):
     k = 1 if tier == "quick" else 12
     # "enum": index-derived (not random) enumeration of ALL agreement sequences of length 1..ENUM_N for a few small
     # configurations per detector - the property's own quantifier for short sequences; supplementary to the seeded search
-    return [("ddm", 500 * k), ("eddm", 500 * k), ("stepd", 350 * k), ("short", 600 * k), ("stepd_tiny", 160 * k), ("enum", ENUM_TOTAL if tier == "quick" else ENUM_TOTAL_THOROUGH)]
+    # "marathon": epochs of thousands of samples (whatever is compacted, capped or re-synchronised after ~1000 updates only shows
+    # there), then a slow decline of the accuracy
+    return [("ddm", 500 * k), ("eddm", 500 * k), ("stepd", 350 * k), ("short", 600 * k), ("stepd_tiny", 160 * k), ("marathon", 16 if tier == "quick" else 48),
+            ("enum", ENUM_TOTAL if tier == "quick" else ENUM_TOTAL_THOROUGH)]
+
+
+HEAVY = ["marathon"]
 
 
 ENUM_CFGS = [
@@ -72,6 +78,23 @@ def _cfg(rng, det):
 
 
 def gen(rng, scenario, tier):
+    if scenario == "marathon":
+        det = rng.choice(["stepd", "stepd", "ddm", "eddm"])
+        cfg = _cfg(rng, det)
+        if det == "stepd":
+            cfg.update(window_size=rng.randint(20, 60), alpha_warning=rng.choice([0.01, 0.003]), alpha_drift=rng.choice([1e-4, 1e-5]))
+        elif det == "ddm":
+            cfg.update(n_threshold=30, warning_scale=2.5, drift_scale=rng.choice([3.5, 4.0]))
+        else:
+            cfg.update(n_threshold=30, warning_thresh=0.9, drift_thresh=rng.choice([0.8, 0.75]))
+        quiet, ramp = rng.randint(2400, 3300), rng.randint(200, 400)
+        a0, a1 = rng.choice([0.95, 0.9]), rng.choice([0.55, 0.4])
+        ev = []
+        for i in range(quiet + ramp + 150):
+            acc = a0 if i < quiet else max(a1, a0 - (a0 - a1) * (i - quiet) / ramp)
+            yt = rng.randint(0, 1)
+            ev.append([yt, yt if rng.random() < acc else 1 - yt])
+        return {"cfg": cfg, "events": ev, "one_pass": True, "drift_positions": [quiet]}
     if scenario == "short":
         det = rng.choice(["ddm", "eddm", "stepd"])
         cfg = _cfg(rng, det)
@@ -154,7 +177,14 @@ def run(case, ctx):
         epoch.append(1 if yt == yp else 0)
         ctx.call(f"C05:{name}:update", det.update, yt, yp)
         ctx.sim_time += 1
-        exp_state, margin = spec(epoch)[-1]
+        if case.get("one_pass"):
+            # long epochs: the specification is causal (its verdict after sample i depends on the epoch's first i outcomes only),
+            # so it is evaluated once over all outcomes from the start of the epoch on and read off position by position
+            if len(epoch) == 1:
+                ahead = spec([1 if a == b else 0 for a, b in case["events"][t:]])
+            exp_state, margin = ahead[len(epoch) - 1]
+        else:
+            exp_state, margin = spec(epoch)[-1]
         got = det.drift_state
         if got != exp_state:
             # a floating-point near-tie is not judged; an EXACT tie (both sides bit-equal, e.g. 0 >= 0 on an all-correct
